@@ -343,6 +343,44 @@ theorem tmp_buffers_distinct (sizes : List Nat) :
         have := h1 _ hmem; omega
   exact ⟨(key sizes 0).2, hs, hl, by decide +kernel⟩
 
+/-- **Array fields of a by-value struct are flattened to the product of all their dimensions**
+(`fb_fill_type` as it is in the working tree): for a field `T f[d1][d2]…[dk]` both loops compute
+`d1 * d2 * … * dk` scalar elements, so the libffi element list describes every scalar of the struct
+(a 2-D or 3-D array field is not cut down to its last dimension) and the filled list is exactly as
+long as the counted one. -/
+theorem struct_flattening_is_product (fields : List (List Nat)) :
+    (∀ dims : List Nat, flatOf Generated.CallFlatten.fillOp dims = some (dims.foldl (· * ·) 1)
+        ∧ flatOf Generated.CallFlatten.countOp dims = some (dims.foldl (· * ·) 1))
+    ∧ elementsFilled fields = some ((fields.map fun dims => dims.foldl (· * ·) 1).sum)
+    ∧ elementsCounted fields = elementsFilled fields := by
+  have hf : Generated.CallFlatten.fillOp = "*=" := by decide
+  have hc : Generated.CallFlatten.countOp = "*=" := by decide
+  have key : ∀ (dims : List Nat) (a : Nat), dims.foldlM (applyFlatOp "*=") a = some (dims.foldl (· * ·) a) := by
+    intro dims
+    induction dims with
+    | nil => intro a; rfl
+    | cons d rest ih => intro a; simp only [List.foldlM_cons, applyFlatOp, if_true, List.foldl_cons]; exact ih _
+  have hdims : ∀ dims : List Nat, flatOf Generated.CallFlatten.fillOp dims = some (dims.foldl (· * ·) 1)
+      ∧ flatOf Generated.CallFlatten.countOp dims = some (dims.foldl (· * ·) 1) := by
+    intro dims; rw [hf, hc]; exact ⟨key dims 1, key dims 1⟩
+  have hsum : ∀ (fs : List (List Nat)) (a : Nat),
+      fs.foldlM (fun acc dims => (flatOf Generated.CallFlatten.fillOp dims).map (acc + ·)) a
+        = some (a + (fs.map fun dims => dims.foldl (· * ·) 1).sum) := by
+    intro fs
+    induction fs with
+    | nil => intro a; simp
+    | cons f rest ih =>
+      intro a
+      simp only [List.foldlM_cons, (hdims f).1, Option.map_some, List.map_cons, List.sum_cons]
+      rw [show (some (a + List.foldl (· * ·) 1 f) >>= fun acc' =>
+            rest.foldlM (fun acc dims => (flatOf Generated.CallFlatten.fillOp dims).map (acc + ·)) acc')
+          = rest.foldlM (fun acc dims => (flatOf Generated.CallFlatten.fillOp dims).map (acc + ·)) (a + List.foldl (· * ·) 1 f)
+          from rfl, ih]
+      congr 1; omega
+  refine ⟨hdims, ?_, ?_⟩
+  · have := hsum fields 0; simpa [elementsFilled] using this
+  · simp only [elementsCounted, elementsFilled, hf, hc]
+
 /-- An empty list still yields one (zero) byte. -/
 theorem empty_list_one_zero_byte (itemSize : Nat) : tmpArrayFfi 1 itemSize [] = [0] := by
   simp [tmpArrayFfi, tmpArray, fillItems]
@@ -391,6 +429,7 @@ example : (200 : Nat) < 2 ^ (⟨.sint, .s1⟩ : CType).size.bits := by decide
 example : resFfi ⟨.sint, .s1⟩ 200 = .ok (.int (-56)) := by decide
 example : variadicArg ⟨.sint, .s1⟩ (-3) = .ok [0xfd, 0xff, 0xff, 0xff] := by decide
 example : preparePtr ⟨4, false, false, false⟩ (.seq 3) = .ok (.tmp 12) := by decide
+example : elementsFilled [[2, 2], [], [2, 3, 2]] = some 17 := by decide  -- struct { float a[2][2]; int k; short s[2][3][2]; }
 example : tmpArrayFfi 12 4 [[1, 0, 0, 0], [7], [2, 2, 2, 2]] = [1, 0, 0, 0, 7, 0, 0, 0, 2, 2, 2, 2] := by decide
 example : ∀ bs ∈ [[1, 0, 0, 0], [7], [2, 2, 2, 2]], (bs : List UInt8).length ≤ 4 := by decide
 
